@@ -40,7 +40,7 @@ def evTable (o : Options) (c : Option CellInfo) : List (String × Option (List C
     o.chargefile.map (fun f => [.setCharges f])),
   ("atoms = atoms.replicate(replicate)",
     o.replicate.map (fun d => [.replicate d])),
-  ("l4 = np.array(np.ceil(2 * mic / np.diag(atoms.cell)), dtype=int)",
+  ("l4 = np.maximum(1, np.array(np.ceil(2 * mic / np.diag(atoms.cell)), dtype=int))",
     o.mic.map (fun _ => [])),
   ("atoms = atoms.replicate(l4)",
     o.mic.map (fun m => match c with
